@@ -343,6 +343,17 @@ theorem C17_history_visible_to_library_reader (chain : List C04.Sect) (edits : L
 example : (C04.merge (applyEdits [[(5, C04.Ent.comp 7 0), (7, C04.Ent.inuse 1 0), (4, C04.Ent.comp 7 1)]]
     [[⟨5, 0, 900⟩], [⟨4, 0, 1000⟩], [⟨5, 0, 1100⟩]])).lookup 5 = some (C04.Ent.inuse 1100 0) := by decide
 
+/-- **Page paths (finding C17-F3).**  The numbers the PdfWriter page paths allocate for the objects
+    they append all lie BELOW the /Size of any base that has a catalog, a page tree and a page:
+    the appended section redefines base objects instead of adding fresh ones. -/
+theorem C17_witness_page_step_collides (baseSize : Nat) (h : 4 ≤ baseSize) :
+    ∀ id ∈ pageStepFirstIds 1, id < baseSize := by
+  intro id hid
+  simp only [pageStepFirstIds, List.mem_cons, List.not_mem_nil, or_false] at hid
+  omega
+
+example : pageStepFirstIds 1 = [1, 2, 3] := by decide
+
 /-- `/Size` stays above every number the section lists when fresh numbers are allocated from
     the previous `/Size` upwards without gaps (what `allocate_id` / `next_id` do). -/
 theorem C17_size_not_shrinking (prevSize : Nat) (objs : List Obj) : prevSize ≤ newSize prevSize objs := by
